@@ -12,7 +12,7 @@ from mzverif.core import Discard, Sub, call, require
 
 ID = "C07"
 LEVEL = "exploration"
-TECHNIQUE = "round trip (maze -> tokens -> maze, list and space-joined string) + differential legacy vs modular equivalent compared through an independent token-stream decoder; Hypothesis mazes of the three kinds on grids 2..20 (multi-digit coordinates)"
+TECHNIQUE = "round trip (maze -> tokens -> maze, list and space-joined string) + differential legacy vs modular equivalent compared through an independent token-stream decoder; Hypothesis mazes of the three kinds on grids 2..20 (multi-digit coordinates), connected and sparse (last row/column walled off, isolated cells), int8..int64 coordinate storage"
 RULE = (
     "case = (connected graph, solution, maze kind, legacy mode, max_grid_size None|n|20, tokenizer flavour MazeTokenizer | bare "
     "TokenizationMode | modular equivalent, input as list | string, numpy seed); dataset case = (items, tokenizer, limit, join). "
